@@ -3,6 +3,8 @@ package httpw
 import (
 	"fmt"
 
+	"github.com/apache/arrow-go/v18/arrow"
+
 	"verifsim/hx"
 	"verifsim/worlds/pipew"
 )
@@ -21,6 +23,9 @@ type StreamOpts struct {
 	UserMeta func(k int) hx.Meta
 	// Tokens receives every (cursor, call) pair the client obtained.
 	Tokens func(cursor, call string)
+	// ExtBody, when set, may frame exchange input k itself (e.g. as an
+	// external-location pointer batch); nil result = the ordinary body.
+	ExtBody func(k int, input arrow.RecordBatch, m hx.Meta) []byte
 }
 
 // RunStream drives one scripted stream call over HTTP with the same client
@@ -244,6 +249,13 @@ func RunStream(op *pipew.Op, o StreamOpts) *pipew.OpResult {
 		}
 		res.Sent++
 		body := ContBody(cursor, call, false, op.InputValues(k), op.Cast, meta(k))
+		if o.ExtBody != nil {
+			in := hx.Int64Batch("x", op.InputValues(k), op.Cast)
+			if b := o.ExtBody(k, in, ContMeta(cursor, call, false, meta(k))); b != nil {
+				body = b
+			}
+			in.Release()
+		}
 		ct := post("exchange", "/"+op.Method+"/exchange", body)
 		if ct.Resp.Panicked != nil {
 			res.ClientErr = fmt.Errorf("exchange: connection aborted (panic: %v)", ct.Resp.Panicked)
